@@ -4,6 +4,8 @@ CONSTANTS Dates = {1, 2}
           MaxMerges = 4
           MaxAgain = 0
           Stable = TRUE
+          Zones = {0}
+          ZoneAware = TRUE
 INIT Init
 NEXT NextMC
 CONSTRAINT ReadsAreLeaves
